@@ -52,6 +52,10 @@ def run(tier, work):
         per[go] = {"key_families": res["traces"], "gets": res["gets"]}
         if not samples:
             samples = vlib.read_ndjson_head(tf, 8)
+    # keys of entries restored by LoadCache address them (the loader must place each entry in the shard its hash selects)
+    import persistcheck
+    pres, _ = persistcheck.trace_part(work, v, "C18", 60 if thorough else 16, 0, {})
+    traces += pres["traces"]
     cov = {"states": mc.distinct, "transitions": mc.generated, "traces_validated_against_impl": traces,
            "evaluations": gets, "distinct_nontrivial": gets,
            "rule": "one evaluation = one Get through a key of a known class (value identity assigned by the driver) after Sets/Deletes through equal keys built along other code paths, for ints of several widths, bool, string, pointer, array, struct, struct with StringKey, a non-injective StringKey (forced hash collisions) and concurrent loading Gets of colliding keys; run on go1.23.5 (raw-memory hasher) and go1.26.8 (maphash.Comparable)",
